@@ -5,6 +5,7 @@
 //
 // usage: c15_copymove enumerate <quick|thorough> <part> <nparts>     part selects the class
 //        c15_copymove replay   (stdin: "kind=<name> ops=<o1,o2,...>")
+#include <unistd.h>
 #include <cinttypes>
 #include <cmath>
 #include <cstdio>
@@ -386,9 +387,19 @@ static SpModel shape(int v)
         m.rows = m.cols = 4;
         m.ent           = {{0, 0, 5}, {0, 3, 1}, {1, 1, 5}, {2, 2, 5}, {2, 0, -2}, {3, 3, 5}, {3, 1, 0.5}};
     }
-    else {
+    else if (v == 2) {
         m.rows = m.cols = 3;
         m.ent           = {{0, 0, 3}, {1, 1, 3}, {1, 0, 1}, {2, 2, 3}, {2, 0, -1}};
+    }
+    else if (v == 3) { // non-square, as many columns and entries as shape 1 but fewer rows
+        m.rows = 2;
+        m.cols = 4;
+        m.ent  = {{0, 0, 2}, {0, 1, -1}, {0, 3, 1}, {1, 0, 0.5}, {1, 1, 2}, {1, 2, -1}, {1, 3, 3}};
+    }
+    else { // non-square, as many columns and entries as shape 1 but more rows
+        m.rows = 5;
+        m.cols = 4;
+        m.ent  = {{0, 0, 2}, {1, 1, 2}, {2, 2, 2}, {2, 0, -1}, {3, 3, 2}, {4, 0, 1}, {4, 3, -0.5}};
     }
     return m;
 }
@@ -414,10 +425,10 @@ struct KCOO {
     {
         return "SparseMatrixCOO";
     }
-    static const int nCtor = 4, nSet = 2, nExtra = 1;
+    static const int nCtor = 6, nSet = 2, nExtra = 1;
     static std::pair<Obj, Model> make(int v)
     {
-        SpModel m = shape(v % 3);
+        SpModel m = shape(v >= 4 ? v - 1 : v % 3); // v = 4, 5: the non-square shapes
         if (v == 3) { // (rows, cols, nnz) constructor followed by element-wise fill
             Obj o(m.rows, m.cols, (int)m.ent.size());
             for (size_t k = 0; k < m.ent.size(); k++) {
@@ -501,12 +512,12 @@ struct KCSR {
     {
         return "SparseMatrixCSR";
     }
-    static const int nCtor = 5, nSet = 2, nExtra = 0;
+    static const int nCtor = 7, nSet = 2, nExtra = 0;
     static std::pair<Obj, Model> make(int v)
     {
-        SpModel m = shape(v % 3);
+        SpModel m = shape(v >= 5 ? v - 2 : v % 3); // v = 5, 6: the non-square shapes (5: triplets, 6: nz_per_row constructor)
         m.ent     = rowSorted(m);
-        if (v == 3) { // nz_per_row constructor + setters
+        if (v == 3 || v == 6) { // nz_per_row constructor + setters
             std::vector<int> cnt(m.rows, 0);
             for (auto& e : m.ent)
                 cnt[std::get<0>(e)]++;
@@ -822,6 +833,14 @@ struct Explorer {
     std::string replayHistory(const std::vector<int>& hist, std::string* canonOut, bool observe)
     {
         replays++;
+        {
+            // the history about to be replayed, so that a sanitizer abort inside it can be attributed (the checker shows the last one)
+            std::string h = std::string("HISTORY ") + K::name() + ":";
+            for (int c : hist)
+                h += " " + opText(c) + " ;";
+            h += "\n";
+            (void)!write(2, h.data(), h.size());
+        }
         World w;
         std::string err;
         try {
